@@ -112,6 +112,16 @@ def execute(backend, seq, h, n=2):
             smp2 = np.asarray(result2.samples)
             if smp2.size:
                 out2[("samples/s",)] = np.real(np.asarray(smp2, dtype=complex)).ravel() / s_of(h)
+            anc2 = getattr(result2, "ancillae_samples", None)
+            if anc2:
+                out2[("ancillae_samples/s",)] = np.array([float(np.real(np.ravel(v)[0])) for k in sorted(anc2) for v in anc2[k]]) / s_of(h)
+            # the ancilla outcome is drawn by the bosonic simulator's own sampler: it is only judged where a second execution
+            # reproduces it (i.e. where the harness owns every draw that enters it)
+            ka = ("ancillae_samples/s",)
+            if ka in out and (ka not in out2 or np.shape(out[ka]) != np.shape(out2[ka]) or np.max(np.abs(out[ka] - out2[ka])) > 1e-9):
+                out.pop(ka, None)
+                out2.pop(ka, None)
+                out[("__ancilla_not_reproducible__",)] = True
             diff = None
             for key, v in out.items():
                 if key[0].startswith("__"):
@@ -237,6 +247,9 @@ def check(backend, seq, res, n=2):
             res.violation(f"C15|second-execution-differs|{backend}|{'+'.join(sorted(set(dim))) or 'dimensionless'}", f"[{fmt(seq)}] on {backend} at hbar = {h}: executing the same Program object a second time on a fresh engine changes {got[('__rerun__',)]}", dict(case, hbar=h))
         for key, b in base.items():
             if key[0].startswith("__"):
+                continue
+            if key not in got:
+                res.stats["observable_not_reproducible_at_one_hbar"] += 1  # (unowned ancilla sampling)
                 continue
             a = got[key]
             a_, b_ = np.asarray(a, dtype=float), np.asarray(b, dtype=float)
